@@ -30,6 +30,15 @@ func (ex *c12Exec) rv(v c12Val) c12Val {
 	if !strings.Contains(r.Path, ".") && len(r.Idx) == 0 {
 		return r // the object itself (receiver passed on to a helper)
 	}
+	if len(r.Idx) == 0 && r.Field != nil && !r.Addr {
+		// a struct-valued piece of the state some of whose fields are known (`next := w.vx.cursorNext`): the value
+		// is a copy whose fields are the current values of those fields, so that next.row is what w.vx.cursorNext.row was
+		if stt, ok := r.Field.Type().Underlying().(*types.Struct); ok && ex.storedUnder(key) {
+			if tn := typeName(r.Field.Type()); tn != "strings.Builder" && tn != "bytes.Buffer" {
+				return ex.snapshot(key, r.Field.Type(), stt, 0)
+			}
+		}
+	}
 	if len(r.Idx) > 0 {
 		// field selections after the last index are selections on the loaded element: the same value whether the
 		// element was copied into a local first (cell := grid[r][c]; cell.Cell) or selected in place (grid[r][c].Cell)
@@ -43,6 +52,76 @@ func (ex *c12Exec) rv(v c12Val) c12Val {
 		return c12Load{Path: r.Path, Idx: r.Idx}
 	}
 	return c12Sym{Hole: -1, Desc: key, From: r.Field}
+}
+
+// storedUnder: some field below the state path key has a known value.
+func (ex *c12Exec) storedUnder(key string) bool {
+	for k := range ex.store {
+		if strings.HasPrefix(k, key+".") {
+			return true
+		}
+	}
+	return false
+}
+
+// snapshot: the value of the struct-typed state at path key as a struct value: every field holds what a read of
+// that field would yield now (known value or the field's symbol). Promoted fields of embedded structs live under
+// the same path as in selector().
+func (ex *c12Exec) snapshot(key string, typ types.Type, stt *types.Struct, depth int) c12Val {
+	s := &c12Struct{Typ: typ, Fields: map[string]c12Val{}}
+	for i := 0; i < stt.NumFields(); i++ {
+		f := stt.Field(i)
+		if f.Embedded() && depth < 4 {
+			if est, ok := f.Type().Underlying().(*types.Struct); ok {
+				s.Fields[f.Name()] = ex.snapshot(key, f.Type(), est, depth+1)
+				continue
+			}
+		}
+		s.Fields[f.Name()] = ex.rv(c12Ref{Path: key + "." + f.Name(), Field: f})
+	}
+	return s
+}
+
+// structEq compares two struct values field by field; known=false when no field is known to differ and some
+// field's comparison is unknown.
+func c12StructEq(a, b *c12Struct) (eq, known bool) {
+	if a == b {
+		return true, true
+	}
+	allKnown := true
+	names := map[string]bool{}
+	for n := range a.Fields {
+		names[n] = true
+	}
+	for n := range b.Fields {
+		names[n] = true
+	}
+	for n := range names {
+		x, okx := a.Fields[n]
+		y, oky := b.Fields[n]
+		if !okx || !oky {
+			allKnown = false
+			continue
+		}
+		var e, k bool
+		sx, isSx := x.(*c12Struct)
+		sy, isSy := y.(*c12Struct)
+		if isSx && isSy {
+			e, k = c12StructEq(sx, sy)
+		} else {
+			e, k = c12Eq(x, y)
+			if !k {
+				e, k = c12Eq(y, x)
+			}
+		}
+		if k && !e {
+			return false, true
+		}
+		if !k {
+			allKnown = false
+		}
+	}
+	return allKnown, allKnown
 }
 
 // argVal evaluates a call argument: pointers into the receiver state stay references.
@@ -507,6 +586,14 @@ func (ex *c12Exec) binary(fr *c12Frame, t *ast.BinaryExpr) c12Val {
 		eq, known := c12Eq(l, r)
 		if !known {
 			eq, known = c12Eq(r, l)
+		}
+		if ls, ok := l.(*c12Struct); ok && !known {
+			if rs, ok := r.(*c12Struct); ok {
+				if eq, known = c12StructEq(ls, rs); !known {
+					// struct values print without their fields: name the question by the expressions compared
+					return c12Sym{Hole: -1, Desc: "(" + canonExpr(fr.info, t.X) + t.Op.String() + canonExpr(fr.info, t.Y) + ")"}
+				}
+			}
 		}
 		if !known {
 			return unknown
